@@ -242,6 +242,17 @@ let handle (line : string) : string =
            let buf = Buffer.create 4096 in
            List.iter (fun b -> Buffer.add_string buf (Printf.sprintf "%02x" (int_of_string ("0x" ^ hex_of_z b)))) bytes;
            (if ok then "walk=1 " else "walk=0 ") ^ Buffer.contents buf)
+  | "PIMG" :: slots :: [] ->
+      (* the bytes of the search structure of a `probing` binary file from the loaded probing table (coq/C03/ProbingImage.v) *)
+      (match !tp with
+       | LoadError _ -> "not-loaded"
+       | Loaded t ->
+           (match probing_image t (nat_of_int (int_of_string slots)) !buckets with
+            | None -> "table-full"
+            | Some bytes ->
+                let buf = Buffer.create 4096 in
+                List.iter (fun b -> Buffer.add_string buf (Printf.sprintf "%02x" (int_of_string ("0x" ^ hex_of_z b)))) bytes;
+                "img " ^ Buffer.contents buf))
   | "DUMP" :: kd :: k :: [] ->
       (match (if kd = "P" then !tp else if kd = "R" then !tr else !tt) with
        | LoadError _ -> "not-loaded"
